@@ -199,16 +199,16 @@ class TokNumber(Token):
         data = self._data.lower()
         if b'x' in data:
             if b'.' in data:
-                integer, frac = data.split(b'.')
+                integer, frac = data[2:].split(b'.')
                 return (
-                    float(int(integer, 16)) +
+                    float(int(integer or b'0', 16)) +
                     float(int(frac, 16))/(16**len(frac)))
             return float(int(data, 16))
         if b'b' in data:
             if b'.' in data:
-                integer, frac = data.split(b'.')
+                integer, frac = data[2:].split(b'.')
                 return (
-                    float(int(integer, 2)) +
+                    float(int(integer or b'0', 2)) +
                     float(int(frac, 2))/(2**len(frac)))
             return float(int(data, 2))
         return float(data)
